@@ -27,8 +27,14 @@ fn read_cases(path: &str) -> Vec<Value> {
         .collect()
 }
 
-fn run_one(runner: &mut Runner, case: &Value) -> Value {
-    let mut st = build(&case["pre"]);
+fn run_one(runner: &mut Runner, case: &Value, t: usize) -> Value {
+    // every third thread builds the same abstract state at rotated ring positions (cursors of the INPUT /
+    // OUTPUT queues and of the GRAPH stack advanced by earlier traffic): invisible through the public API
+    let mut pre = case["pre"].clone();
+    if t % 3 == 1 && pre.get("rot").is_none() {
+        pre["rot"] = json!({"input": 1 + t, "output": 1 + (t % 5), "graph": 33 * t});
+    }
+    let mut st = build(&pre);
     let k = case["steps"].as_u64().unwrap_or(100);
     let cache = runner.iset.cache();
     let mut n = 0;
@@ -70,7 +76,7 @@ fn det(cases_path: &str, out_path: &str, threads: usize) {
             let mut runner = Runner::new();
             let mut res: Vec<(usize, Value)> = vec![];
             for (pos, idx) in order.iter().enumerate() {
-                let mut r = run_one(&mut runner, &cases[*idx]);
+                let mut r = run_one(&mut runner, &cases[*idx], t);
                 r["thread"] = json!(t);
                 r["order"] = json!(pos);
                 res.push((*idx, r));
